@@ -8,6 +8,7 @@
   All statements are for every shape: any depth, any arrangement, any tags.
 -/
 import IocProofs.Lemmas.Scan
+import IocProofs.Lemmas.ScanHand
 namespace Ioc.C11
 open Ioc Ioc.Scan
 
@@ -91,6 +92,52 @@ theorem C11_proc_order (procs procs' : List TagProc) (h : procs.Perm procs') (fi
     (properties procs fields).Perm (properties procs' fields) :=
   properties_perm procs procs' h fields
 
+/-! ### what a processor is handed does not depend on the other processors of the chain -/
+
+/-- ResolveAfterInstantiation hands EVERY processor all properties of the component, whatever any processor of the chain
+    returns from PostProcessProperties (nil, the same list, a partial, an empty or a reordered one). -/
+theorem C11_handed_all (all : List Property) (rets : List PropsRet) :
+    handedLoop all rets = rets.map (fun _ => all) :=
+  handedLoop_eq all rets
+
+/-- …so two chains of the same length hand out the same lists: replacing, adding behaviour to, or re-ordering the OTHER
+    processors changes nothing for a processor. -/
+theorem C11_handed_independent (all : List Property) (rets rets' : List PropsRet) (h : rets.length = rets'.length) :
+    handedLoop all rets = handedLoop all rets' := by
+  rw [handedLoop_eq, handedLoop_eq]
+  induction rets generalizing rets' with
+  | nil => cases rets' with
+    | nil => rfl
+    | cons _ _ => cases h
+  | cons r rest ih => cases rets' with
+    | nil => cases h
+    | cons r' rest' => simp only [List.map_cons, List.cons.injEq, true_and]; exact ih rest' (by simpa using h)
+
+/-- The container as shipped plus one user tag processor, at ANY position of a chain of processors with ARBITRARY
+    PostProcessProperties results: of the list it is handed, the properties carrying its tag are exactly the scanned fields
+    carrying its tag, in scan order, with the value part and arguments NewProperty parses from the tag text — the
+    statement of `C11_custom_exact`, at the processor's PostProcessProperties call, at any embedding depth. -/
+theorem C11_custom_handed_exact (nodeType tag : Bytes) (hb : tag ∉ [tLogger, tPrefix, tValue, tWire, tFunc]) (ht : tag ≠ [])
+    (sh : Shape) (rets : List PropsRet) (handed : List Property)
+    (hh : handed ∈ handedLoop (properties (builtinProcs ++ [customProc nodeType tag]) (scan sh)) rets) :
+    (ofTag tag handed).map (fun q => (q.field, q.tag, some (q.tagVal, q.args))) =
+      (scan sh).filterMap (fun f => (lookupTag tag f.info.tags).map fun v =>
+        (f, tag, (Tag.parse? v).map fun r => (r.1, requiredDefault false r.2))) := by
+  rw [handedLoop_eq] at hh
+  obtain ⟨_, _, rfl⟩ := List.mem_map.1 hh
+  rw [ofTag_builtin_custom nodeType tag hb]
+  exact propsOf_custom (customProc nodeType tag) rfl ht (scan sh)
+
+/-- The tie to the code.  `Progs.del_ResolveAfterInstantiation` is the syntax tree of ResolveAfterInstantiation, re-translated
+    from /repo's source on every run.  Run by the MiniGo interpreter with `meta.GetAllProperties()` evaluating to `all` and
+    processor p's PostProcessProperties returning `ret p handed` — an ARBITRARY value — every processor of the chain is handed
+    `all`: the program is `handedLoop`.  (A rewrite that feeds a processor's result to the later ones changes the term this
+    theorem is about.) -/
+theorem C11_code_handed (procs : List Nat) (all : Go.Val) (ret : Nat → Go.Val → Go.Val) :
+    Go.run (Sem.handPrims procs all ret) Progs.del_ResolveAfterInstantiation [.str "meta", .str "n"] [] =
+      some (.nil, procs.map (fun p => (p, all))) := by
+  simpa using Sem.resolveAfterInstantiation_hands_all procs all ret []
+
 /-! ### non-vacuity: a depth-3 shape with every kind of leaf -/
 
 section examples
@@ -143,6 +190,17 @@ example : (properties? [customProc ntConfiguration (ofString "mytag")] (scan ex)
     ((properties? [customProc ntConfiguration (ofString "mytag")] (scan ex)).getD []).map
       (fun q => (q.field.fullPath.length, q.tagVal, q.args)) =
     [(4, ofString "v", [(ofString "A", [ofString "b", ofString "c"])])] := by decide
+-- C11_custom_handed_exact: the recorder sits behind a processor that returns an EMPTY list and one that returns nil; it is
+-- handed all 8 properties and finds its own one (the hypotheses hold for `mytag`)
+example : ofString "mytag" ∉ [tLogger, tPrefix, tValue, tWire, tFunc] ∧ ofString "mytag" ≠ ([] : Bytes) := by decide
+example : ((handedLoop (properties exProcs (scan ex)) [fun _ => some [], fun _ => none, fun l => some l.reverse]).map
+    (fun h => (h.length, (ofTag (ofString "mytag") h).map (fun q => q.field.info.name)))) =
+    [(8, [ofString "My"]), (8, [ofString "My"]), (8, [ofString "My"])] := by decide
+-- C11_code_handed on a chain of three processors returning an empty list, nil and the list they got
+example : Go.run (Sem.handPrims [4, 7, 9] (.list [.str "p1", .str "p2"]) (fun p h => if p == 4 then .list [] else if p == 7 then .nil else h))
+    Progs.del_ResolveAfterInstantiation [.str "meta", .str "n"] [] =
+    some (.nil, [(4, .list [.str "p1", .str "p2"]), (7, .list [.str "p1", .str "p2"]), (9, .list [.str "p1", .str "p2"])]) :=
+  C11_code_handed _ _ _
 -- `writes` is non-empty and misses Plain, Fo, u, T, P, N (hypothesis of C11_frame is satisfiable, conclusion is not trivial)
 example : (writes exProcs ex).length = 8 ∧ (scan ex).length = 13 := by decide
 -- C11_proc_order: a genuinely different enumeration order
